@@ -1,7 +1,7 @@
 (* C01 -- the DTW distance (model: DtwSpec.dtw_model, tied to dtw.distance by the
    correspondence check and to the regenerated band/buffer expressions by BandTie)
    is the optimum over admissible warping paths. *)
-From Coq Require Import ZArith List.
+From Coq Require Import ZArith List Bool.
 From DV Require Import Cost Grid Dtw DtwSpec.
 
 Theorem C01_lower_bound : forall u s1 s2 ij p v,
@@ -15,3 +15,29 @@ Theorem C01_attained : forall u s1 s2,
   exists ij p, In ij (end_cands u s1 s2) /\
                wpath_cost u s1 s2 (fst ij) (snd ij) p = Some (dtw_value u s1 s2).
 Proof. exact dtw_value_attained. Qed.
+
+(* The model of dtw.distance AS WRITTEN (PyDist.dist_model: two rolling rows of the
+   regenerated length, per-row column offset, psi prologue and end scans, all index
+   arithmetic taken from the regenerated Gen_dtw.v) computes exactly the specification
+   value above -- for every pair of non-empty series and every setting with window >= 1
+   in which the empty alignment is excluded.  The correspondence check compares
+   dist_model (extracted) with dtw.distance. *)
+From DV Require Import PyDist PyDistProofs.
+Import ListNotations.
+
+Theorem C01_code_model_is_spec : forall u s1 s2,
+  (1 <= eff_window u (length s1) (length s2))%Z ->
+  (1 <= length s1)%nat -> (1 <= length s2)%nat ->
+  (psi_1b u < length s1)%nat \/ (psi_2e u < length s2)%nat ->
+  dist_model u s1 s2 = dtw_model u s1 s2.
+Proof. exact dist_model_is_dtw_model. Qed.
+
+(* the hypotheses are satisfiable and the rolling buffer really rolls: window 1, lengths 5 and 4, psi (1,1,1,1) *)
+Definition ex_u := {| u_window := Some 1%Z; u_penalty := Some 1%Z; u_max_step := None; u_max_length_diff := None;
+                      u_psi := ((1, 1), (1, 1))%nat; u_inner := SqEuclid |}.
+Definition ex_s1 : list point := [[1]; [3]; [2]; [5]; [4]]%Z.
+Definition ex_s2 : list point := [[2]; [2]; [6]; [4]]%Z.
+Example C01_code_model_nonvacuous :
+  (((1 <=? eff_window ex_u (length ex_s1) (length ex_s2))%Z && (psi_1b ex_u <? length ex_s1)%nat &&
+   (L ex_u ex_s1 ex_s2 <? length ex_s2 + 1)%nat)%bool = true) /\ dist_model ex_u ex_s1 ex_s2 = Fin 2.
+Proof. vm_compute. split; reflexivity. Qed.
